@@ -594,6 +594,84 @@ fn agreement_dot(case: &mut Case, rng: &mut Rng) {
     case.sample(json!({"workload":"dot_agreement","receiver": m.recv_ty, "prefix": prefix, "offered": items.iter().map(|i| i.name.clone()).collect::<Vec<_>>()}));
 }
 
+/// `Ty::` completion on generic types that have a generic inherent block and blocks written for single instances
+/// (`impl[T] Bx[T]`, `impl Bx[int32]`, `impl Bx[string]`): whatever is offered after the bare constructor must be
+/// callable through that path - `Bx::<item>(receiver)` has to type-check for a receiver of the block's type (added after
+/// a seeded change that offered the methods of every block of the constructor).
+fn agreement_colon_instance_blocks(case: &mut Case, rng: &mut Rng) {
+    // (type name, declarations, [(method, call arguments that fit the method's block)])
+    let shapes: [(&str, &str, &[(&str, &str)]); 3] = [
+        (
+            "Bx",
+            "struct Bx[T] { v: T }\nimpl[T] Bx[T] { fn get(self: Bx[T]) -> T { self.v } fn wrap(v: T) -> Bx[T] { Bx { v: v } } }\nimpl Bx[int32] { fn only_int(self: Bx[int32]) -> int32 { self.v + 1 } fn zero() -> Bx[int32] { Bx { v: 0 } } }\nimpl Bx[string] { fn only_str(self: Bx[string]) -> string { self.v } }\n",
+            &[("get", "(Bx { v: 1 })"), ("wrap", "(true)"), ("only_int", "(Bx { v: 1 })"), ("zero", "()"), ("only_str", "(Bx { v: \"s\" })")],
+        ),
+        (
+            "Opn",
+            "enum Opn[T] { Sm(T), Nn }\nimpl Opn[int32] { fn oi(self: Opn[int32]) -> int32 { 1 } }\nimpl Opn[bool] { fn ob(self: Opn[bool]) -> bool { true } }\n",
+            &[("oi", "(Opn::Sm(1))"), ("ob", "(Opn::Sm(true))"), ("Sm", "-"), ("Nn", "-")],
+        ),
+        (
+            "Pr2",
+            "struct Pr2[A, B] { a: A, b: B }\nimpl[A] Pr2[A, int32] { fn second_int(self: Pr2[A, int32]) -> int32 { self.b } }\nimpl[A, B] Pr2[A, B] { fn first(self: Pr2[A, B]) -> A { self.a } }\n",
+            &[("second_int", "(Pr2 { a: true, b: 1 })"), ("first", "(Pr2 { a: true, b: 1 })")],
+        ),
+    ];
+    let (ty, decls, methods) = shapes[rng.below(shapes.len())];
+    let prefix: String = if rng.chance(1, 2) {
+        String::new()
+    } else {
+        let w = methods[rng.below(methods.len())].0;
+        w[..1 + rng.below(w.len())].to_string()
+    };
+    let mut src = String::from(decls);
+    src.push_str(&format!("fn main() {{\n    let z = {}::", ty));
+    let head_len = src.len();
+    src.push_str(&prefix);
+    let cursor = src.len();
+    let tail = ";\n    ()\n}\n";
+    src.push_str(tail);
+    runner::note_input(&src);
+    let (l, c) = line_col(&src, cursor);
+    case.count("queries", 1);
+    case.count("queries_agreement", 1);
+    case.nontrivial(hash_str(&src));
+    let items = match runner::guard(|| query::colon_colon_completions(p(), &src, l, c)) {
+        Ok(v) => v.unwrap_or_default(),
+        Err(pn) => {
+            case.violation(runner::panic_signature(&pn), format!("colon_colon_completions panicked at {}", pn.site), json!({"input": src, "line": l, "col": c}));
+            return;
+        }
+    };
+    case.count("colon_instance_block_queries", 1);
+    for it in &items {
+        case.count("colon_items_checked", 1);
+        let Some((_, args)) = methods.iter().find(|(m, _)| *m == it.name.as_str()) else {
+            case.violation(format!("colon-offers-nonmember:{}:{}", ty, it.name), format!("completion after `{}::` offers `{}` which does not exist there", ty, it.name), json!({"input": src, "line": l, "col": c, "item": it.name}));
+            continue;
+        };
+        if !it.name.starts_with(&prefix) {
+            case.violation(format!("colon-ignores-prefix:{}", ty), format!("completion `{}` does not start with the typed prefix `{}`", it.name, prefix), json!({"input": src, "line": l, "col": c, "item": it.name}));
+        }
+        if *args == "-" {
+            // a variant: the constructor path is covered by agreement_colon
+            continue;
+        }
+        let text = format!("{}{}{}{}", &src[..head_len], it.name, args, tail);
+        case.count("insertions_typechecked", 1);
+        case.count("colon_instance_block_insertions", 1);
+        if let Ok(Ok(errs)) = runner::guard(|| typecheck_errors(&text)) {
+            if !errs.is_empty() {
+                case.violation(
+                    format!("colon-insertion-ill-typed:{}:{}", ty, it.name),
+                    format!("`{}::` offers `{}`, but `{}::{}{}` does not type-check: {}", ty, it.name, ty, it.name, args, util::truncate(&errs.join("; "), 200)),
+                    json!({"input": src, "inserted": text, "errors": errs}),
+                );
+            }
+        }
+    }
+}
+
 fn agreement_colon(case: &mut Case, rng: &mut Rng) {
     let ns = &NAMESPACES[rng.below(NAMESPACES.len())];
     let prefix: String = if rng.chance(1, 2) {
@@ -776,7 +854,7 @@ fn run(ctx: &mut Ctx) {
     let seed = ctx.seed;
     let corpus = corpus_files();
     // Part B first (cheap, deterministic count)
-    let nb = tier.pick(600u64, 20_000u64) / ctx.nshards as u64 + 1;
+    let nb = tier.pickn(600u64, 20_000u64) / ctx.nshards as u64 + 1;
     for i in 0..nb {
         let mut rng = Rng::keyed(seed, "c20-agree", ctx.shard as u64, i);
         ctx.case(&format!("hover_agree/{}/{}", ctx.shard, i), |c| agreement_hover(c, &mut rng));
@@ -784,6 +862,9 @@ fn run(ctx: &mut Ctx) {
         ctx.case(&format!("dot_agree/{}/{}", ctx.shard, i), |c| agreement_dot(c, &mut rng));
         ctx.case(&format!("colon_agree/{}/{}", ctx.shard, i), |c| agreement_colon(c, &mut rng));
         ctx.case(&format!("colon_agree_qualified/{}/{}", ctx.shard, i), |c| agreement_colon_qualified(c, &mut rng));
+        if i % 4 == 0 {
+            ctx.case(&format!("colon_agree_instance_blocks/{}/{}", ctx.shard, i), |c| agreement_colon_instance_blocks(c, &mut rng));
+        }
         if i % 8 == 0 {
             ctx.case(&format!("hover_agree_patterns/{}/{}", ctx.shard, i), |c| agreement_hover_patterns(c, &mut rng));
         }
@@ -823,7 +904,7 @@ fn run(ctx: &mut Ctx) {
     }
     // prefixes and mutations
     let pool: Vec<&str> = corpus.iter().map(|(_, t)| t.as_str()).filter(|t| t.len() < 5_000).collect();
-    let n = tier.pick(700u64, 40_000u64) / ctx.nshards as u64 + 1;
+    let n = tier.pickn(700u64, 40_000u64) / ctx.nshards as u64 + 1;
     for i in 0..n {
         let mut rng = Rng::keyed(seed, "c20-mut", ctx.shard as u64, i);
         let base = rng.pick(&pool);
